@@ -393,6 +393,7 @@ func (tbls *TBLS) waitForShareDistribution(ctx context.Context) error {
 			return ctx.Err()
 		}
 
+		verifPark(tbls.Party, "shares")
 		tbls.signal.Wait()
 	}
 
@@ -408,6 +409,7 @@ func (tbls *TBLS) waitForCommitmentDistribution(ctx context.Context) error {
 			return ctx.Err()
 		}
 
+		verifPark(tbls.Party, "commits")
 		tbls.signal.Wait()
 	}
 
@@ -423,6 +425,7 @@ func (tbls *TBLS) waitForDeCommitmentDistribution(ctx context.Context) error {
 			return ctx.Err()
 		}
 
+		verifPark(tbls.Party, "reveals")
 		tbls.signal.Wait()
 	}
 
